@@ -904,4 +904,382 @@ theorem src_recv_flags (J : Int) (st : BufferedSocket.St Int) (w : NW) (size fla
     BufferedSocket.recv (mnet J) st size flags targ w = (.error .valueError, st, w) := by
   simp [BufferedSocket.recv, runMethod, BufferedSocket.recv.body, Blk.seq, Blk.ite, Blk.assign, Blk.raise, finishMethod, hfl]
 
+
+/-! ## send side (round 3f): `buffer`, `send`, `sendall`, `flush`
+
+The world of the send side is the model's send script (`C12.SEv`: how many bytes each `sock.send` takes, socket timeouts, the
+wall clock passing the deadline), the wire (everything the socket accepted so far) and the clock, which - as on the receive
+side and in the harness - jumps by `J` when a `sock.send` returns normally and leaves a `clock` event at the head of the
+script: the deadline check that follows then fires (`popClock`).  `sbuf` is the object's list attribute. -/
+
+structure SW where
+  script : List SEv
+  wire : Bytes
+  late : Bool
+deriving Repr
+
+def isClock : List SEv → Bool
+  | .clock :: _ => true
+  | _ => false
+
+/-- `sock.send(d)` on the model's send script (cf. `C12.sendLoop`, harness `FakeSock.send`) -/
+def netSend (d : PyRtC12.Bytes) (w : SW) : Except Exc Int × SW :=
+  match w.script with
+  | [] => (.ok ((d.length : Nat) : Int), ⟨[], w.wire ++ d, false⟩)
+  | .timeout :: r => (.error .sockTimeout, ⟨r, w.wire, false⟩)
+  | .clock :: r => (.error .sockTimeout, ⟨r, w.wire, false⟩)      -- a send that finds the deadline passed times out too
+  | .accept k :: r => (.ok ((min k d.length : Nat) : Int), ⟨r, w.wire ++ d.take k, isClock r⟩)
+
+/-- the model's send-side network as an instance of the operations the generated code calls -/
+def snet (J : Int) : Net SW Int where
+  recv := fun _ w => (.ok [], w)
+  settimeout := fun _ w => (.ok (), w)
+  send := netSend
+  time := fun w => (.ok (if w.late then J else 0), w)
+  fsub := fun a b => a - b
+  fle := fun a b => decide (a ≤ b)
+  fzero := 0
+  ftruthy := fun a => decide (a ≠ 0)
+
+theorem snet_send (J : Int) (d : PyRtC12.Bytes) (w : SW) : (snet J).send d w = netSend d w := rfl
+theorem snet_settimeout (J : Int) (t : Option Int) (w : SW) : (snet J).settimeout t w = (.ok (), w) := rfl
+theorem snet_time (J : Int) (w : SW) : (snet J).time w = (.ok (if w.late then J else 0), w) := rfl
+theorem snet_fsub (J a b : Int) : (snet J).fsub a b = a - b := rfl
+theorem snet_fle (J a b : Int) : (snet J).fle a b = decide (a ≤ b) := rfl
+theorem snet_fzero (J : Int) : (snet J).fzero = 0 := rfl
+theorem snet_truthy_some (J t : Int) : (snet J).truthyOpt (some t) = decide (t ≠ 0) := rfl
+
+/-- the script the model is left with: a `clock` event whose check fired is used up by that fault -/
+def ssettle (w : SW) : List SEv := if w.late then w.script.tail else w.script
+
+/-- the model's send-side state of an object in a world -/
+def sst (st : BufferedSocket.St Int) (w : SW) : SSt := ⟨st.sbuf, w.wire, w.script⟩
+
+/-- `buffer(data)` = the model's `buffer`: `data` is appended to `sbuf`, nothing is sent, `None` -/
+theorem src_buffer_eq_model (J : Int) (st : BufferedSocket.St Int) (w : SW) (data : Bytes) :
+    BufferedSocket.buffer (snet J) st data w = (.ok (), { st with sbuf := (buffer data (sst st w)).2.sbuf }, w) ∧
+    (buffer data (sst st w)).1 = .none ∧ (buffer data (sst st w)).2.wire = w.wire ∧
+    (buffer data (sst st w)).2.script = w.script := by
+  simp [BufferedSocket.buffer, runMethod, BufferedSocket.buffer.body, Blk.seq, Blk.assign, Blk.ret, finishMethod, buffer, sst]
+
+example : BufferedSocket.buffer (snet 100) ⟨[], [[1]], 10, some 5, 4⟩ [2, 3] ⟨[.accept 1], [], false⟩
+    = (.ok (), ⟨[], [[1], [2, 3]], 10, some 5, 4⟩, ⟨[.accept 1], [], false⟩) := rfl
+
+
+/-! ### `send` -/
+
+abbrev SFr := Fr (BufferedSocket.St Int) (BufferedSocket.send.L Int) SW
+
+/-- what the result of the model's `sendLoop` says about the outcome of the generated loop started on frame `s0` whose
+    `sbuf` is `b :: rest`: `sbuf[0]` is what the model leaves, the wire and the script agree, a fault surfaces as an
+    exception the `except socket.timeout` clause catches -/
+def SendLoopPost (self0 : BufferedSocket.St Int) (rest : List Bytes) (mr : SRes × SSt) (o : Out Int × SFr) : Prop :=
+  o.2.self = { self0 with sbuf := mr.2.sbuf ++ rest } ∧ o.2.w.wire = mr.2.wire ∧
+  match mr.1 with
+  | .sent n => o.1 = .next ∧ o.2.loc.total_sent = (n : Int) ∧ o.2.w.script = mr.2.script ∧ o.2.w.late = false
+  | .timeout => (∃ e, o.1 = .exc e ∧ e.isSockTimeout = true) ∧ ssettle o.2.w = mr.2.script
+  | .none => False
+
+theorem drop_min_length {α : Type} (l : List α) (k : Nat) : l.drop (min k l.length) = l.drop k := by
+  by_cases h : k ≤ l.length
+  · rw [Nat.min_eq_left h]
+  · have h2 : l.length ≤ k := by omega
+    rw [Nat.min_eq_right h2, List.drop_of_length_le (Nat.le_refl _), List.drop_of_length_le h2]
+
+theorem isClock_popClock (r : List SEv) :
+    (isClock r = true ∧ ∃ r1, r = .clock :: r1 ∧ popClock r = some r1) ∨ (isClock r = false ∧ popClock r = none) := by
+  cases r with
+  | nil => simp [isClock, popClock]
+  | cons e r1 => cases e <;> simp [isClock, popClock]
+
+/-- fuel the loop needs: one iteration per script event, one for "the socket takes everything", one for the final test -/
+def sendFuel (script : List SEv) (b : Bytes) : Nat := script.length + (if b = [] then 1 else 2)
+
+theorem sliceFrom_len_cons (x : Nat) (xs : List Nat) : sliceFrom (x :: xs) ((xs.length : Int) + 1) = [] := by
+  have h := sliceFrom_nat (x :: xs) (xs.length + 1)
+  simpa using h
+
+theorem sliceFrom_min_cons (x : Nat) (xs : List Nat) (k : Nat) :
+    sliceFrom (x :: xs) ((min k (xs.length + 1) : Nat) : Int) = (x :: xs).drop k := by
+  rw [sliceFrom_nat]
+  exact drop_min_length (x :: xs) k
+
+theorem send_loop (J t : Int) (ht0 : 0 < t) (htJ : t ≤ J) (lf : Nat) :
+    ∀ (n : Nat) (s : SFr) (b : Bytes) (rest : List Bytes) (total : Nat),
+      sendFuel s.w.script b ≤ n → s.self.sbuf = b :: rest → s.loc.timeout_r = some t → s.loc.start = 0 →
+      s.loc.total_sent = (total : Int) → s.w.late = false →
+      SendLoopPost s.self rest (sendLoop s.w.script b total s.w.wire)
+        (Blk.whileLoop (BufferedSocket.send.loop1.cond (snet J) lf) (BufferedSocket.send.loop1.body (snet J) lf)
+          (BufferedSocket.send.loop1.orelse (snet J) lf) n s) := by
+  intro n
+  induction n with
+  | zero =>
+    intro s b rest total hn
+    unfold sendFuel at hn
+    split at hn <;> omega
+  | succ n ih =>
+    intro s b rest total hn hsb hto hst htot hlate
+    obtain ⟨self, loc, w⟩ := s
+    obtain ⟨script, wire, late⟩ := w
+    simp only at hn hsb hto hst htot hlate
+    subst hlate
+    have htne : t ≠ 0 := by omega
+    have hself : ∀ y : Bytes, ({ self with sbuf := [y] ++ rest } : BufferedSocket.St Int) = { self with sbuf := y :: rest } := by
+      intro y; rfl
+    cases b with
+    | nil =>
+      have hself0 : self = { self with sbuf := [[]] ++ rest } := by
+        obtain ⟨rb, sb, ms, tmo0, rsz⟩ := self
+        simp only at hsb
+        subst hsb
+        rfl
+      simp [Blk.whileLoop, BufferedSocket.send.loop1.cond, BufferedSocket.send.loop1.orelse, Blk.skip, hsb, truthy, len,
+        sendLoop, SendLoopPost, htot]
+      exact hself0
+    | cons x xs =>
+      have hc : BufferedSocket.send.loop1.cond (snet J) lf ⟨self, loc, ⟨script, wire, false⟩⟩ = true := by
+        simp [BufferedSocket.send.loop1.cond, hsb, truthy, len]
+        try omega
+      rw [Blk.whileLoop]
+      simp only [hc, if_true]
+      cases script with
+      | nil =>
+        have hn2 : sendFuel [] ([] : Bytes) ≤ n := by simp [sendFuel] at hn ⊢; omega
+        generalize hB : BufferedSocket.send.loop1.body (snet J) lf ⟨self, loc, ⟨[], wire, false⟩⟩ = B
+        simp [BufferedSocket.send.loop1.body, Blk.seq, Blk.call, Blk.assign, Blk.ite, Blk.skip, Blk.raise, snet_send, netSend,
+          snet_settimeout, snet_time, snet_fsub, snet_fle, snet_fzero, hto, snet_truthy_some, htne, unwrap, hsb, hst, htot,
+          sliceFrom_len_cons, show ¬ t ≤ 0 by omega] at hB
+        subst hB
+        simp only []
+        generalize hF : (Fr.mk _ _ _ : SFr) = F
+        have h := ih F [] rest (total + (x :: xs).length) (by subst hF; exact hn2) (by subst hF; rfl) (by subst hF; simp [hto])
+          (by subst hF; simp [hst]) (by subst hF; simp [htot] <;> omega) (by subst hF; rfl)
+        have e1 : F.self = { self with sbuf := [] :: rest } := by subst hF; rfl
+        have e2 : F.w = ⟨[], wire ++ (x :: xs), false⟩ := by subst hF; rfl
+        rw [e1, e2] at h
+        simpa [SendLoopPost, sendLoop] using h
+      | cons e r =>
+        cases e with
+        | timeout =>
+          have hself1 : self = { self with sbuf := [x :: xs] ++ rest } := by
+            obtain ⟨rb, sb, ms, tmo0, rsz⟩ := self
+            simp only at hsb
+            subst hsb
+            rfl
+          simp [BufferedSocket.send.loop1.body, Blk.seq, Blk.call, snet_send, netSend, hsb, sendLoop, SendLoopPost, ssettle,
+            Exc.isSockTimeout]
+          exact hself1
+        | clock =>
+          have hself1 : self = { self with sbuf := [x :: xs] ++ rest } := by
+            obtain ⟨rb, sb, ms, tmo0, rsz⟩ := self
+            simp only at hsb
+            subst hsb
+            rfl
+          simp [BufferedSocket.send.loop1.body, Blk.seq, Blk.call, snet_send, netSend, hsb, sendLoop, SendLoopPost, ssettle,
+            Exc.isSockTimeout]
+          exact hself1
+        | accept k =>
+          rcases isClock_popClock r with ⟨hck, r1, hr1, hpop⟩ | ⟨hck, hpop⟩
+          · have hJ : t - J ≤ 0 := by omega
+            subst hr1
+            simp [isClock, popClock, BufferedSocket.send.loop1.body, Blk.seq, Blk.call, Blk.assign, Blk.ite, Blk.skip, Blk.raise, snet_send, netSend,
+              snet_settimeout, snet_time, snet_fsub, snet_fle, snet_fzero, hto, snet_truthy_some, htne, unwrap, hsb, hst, htot,
+              sliceFrom_min_cons, hJ, sendLoop, SendLoopPost, ssettle, Exc.isSockTimeout]
+          · have hn2 : sendFuel r ((x :: xs).drop k) ≤ n := by
+              have hne : ¬ (x :: xs = []) := by simp
+              simp only [sendFuel, List.length_cons, if_neg hne] at hn
+              unfold sendFuel
+              split <;> omega
+            generalize hB : BufferedSocket.send.loop1.body (snet J) lf ⟨self, loc, ⟨.accept k :: r, wire, false⟩⟩ = B
+            simp [BufferedSocket.send.loop1.body, Blk.seq, Blk.call, Blk.assign, Blk.ite, Blk.skip, Blk.raise, snet_send, netSend,
+              snet_settimeout, snet_time, snet_fsub, snet_fle, snet_fzero, hto, snet_truthy_some, htne, unwrap, hsb, hst, htot,
+              sliceFrom_min_cons, hck, show ¬ t ≤ 0 by omega] at hB
+            subst hB
+            simp only []
+            generalize hF : (Fr.mk _ _ _ : SFr) = F
+            have h := ih F ((x :: xs).drop k) rest (total + min k (x :: xs).length) (by subst hF; exact hn2) (by subst hF; rfl)
+              (by subst hF; simp [hto]) (by subst hF; simp [hst]) (by subst hF; simp [htot]) (by subst hF; rfl)
+            have e1 : F.self = { self with sbuf := (x :: xs).drop k :: rest } := by subst hF; rfl
+            have e2 : F.w = ⟨r, wire ++ (x :: xs).take k, false⟩ := by subst hF; rfl
+            rw [e1, e2] at h
+            simpa [SendLoopPost, sendLoop, hpop] using h
+
+theorem truthy_eq_isNonEmpty : (truthy : PyRtC12.Bytes → Bool) = isNonEmpty := by
+  funext b; cases b <;> rfl
+
+/-- what the caller of a send-side method sees -/
+def soutcome : SRes → Except Exc Int
+  | .sent n => .ok (n : Int)
+  | .timeout => .error .timeout
+  | .none => .ok 0
+
+/-- the script the model is left with after a send-side call on world `w` -/
+def sscriptAfter (r : SRes) (w : SW) : List SEv := if r = .timeout then ssettle w else w.script
+
+/-- `send(data, 0, timeout)` = the model's `send`: the value (`total_sent`) or `Timeout`, `sbuf` joined and trimmed as in the
+    model, the wire, the script used - under every partial-send / socket-timeout / deadline script, for a positive timeout
+    the clock's jump exceeds, with fuel ≥ script length + 2 -/
+theorem src_send_eq_model (J t : Int) (ht0 : 0 < t) (htJ : t ≤ J) (st : BufferedSocket.St Int) (w : SW) (data : Bytes)
+    (targ : Option (Option Int)) (lfuel : Nat) (hlate : w.late = false) (hto : orDefault targ st.timeout = some t)
+    (hf : w.script.length + 2 ≤ lfuel) :
+    ∃ w', BufferedSocket.send (snet J) lfuel st data 0 targ w
+        = (soutcome (send data (sst st w)).1, { st with sbuf := (send data (sst st w)).2.sbuf }, w') ∧
+      w'.wire = (send data (sst st w)).2.wire ∧
+      sscriptAfter (send data (sst st w)).1 w' = (send data (sst st w)).2.script := by
+  have hsend : ∀ b : Bytes, send data (sst st w) = ((sendLoop w.script b 0 w.wire).1,
+      ⟨(sendLoop w.script b 0 w.wire).2.sbuf ++ [], (sendLoop w.script b 0 w.wire).2.wire, (sendLoop w.script b 0 w.wire).2.script⟩) →
+      (∀ F : SFr, F.self = { st with sbuf := [b] } → F.loc.timeout_r = some t → F.loc.start = 0 → F.loc.total_sent = 0 → F.w = w →
+        ∃ O, Blk.whileLoop (BufferedSocket.send.loop1.cond (snet J) lfuel) (BufferedSocket.send.loop1.body (snet J) lfuel)
+            (BufferedSocket.send.loop1.orelse (snet J) lfuel) lfuel F = O ∧
+          SendLoopPost st [] (sendLoop w.script b 0 w.wire) O) := by
+    intro b _ F h1 h2 h3 h4 h5
+    refine ⟨_, rfl, ?_⟩
+    have hfu : sendFuel F.w.script b ≤ lfuel := by
+      rw [h5]; unfold sendFuel; split <;> omega
+    have key := send_loop J t ht0 htJ lfuel lfuel F b [] 0 hfu (by rw [h1]) h2 h3 (by rw [h4]; rfl) (by rw [h5]; exact hlate)
+    rw [h5] at key
+    simpa [SendLoopPost, h1] using key
+  unfold BufferedSocket.send runMethod BufferedSocket.send.body
+  cases hs : st.sbuf with
+  | nil =>
+    have hm : send data (sst st w) = ((sendLoop w.script data 0 w.wire).1,
+      ⟨(sendLoop w.script data 0 w.wire).2.sbuf ++ [], (sendLoop w.script data 0 w.wire).2.wire, (sendLoop w.script data 0 w.wire).2.script⟩) := by
+      simp [send, sst, hs]
+    have hk := hsend data hm
+    rw [hm]
+    simp [Blk.seq, Blk.assign, Blk.call, Blk.ite, Blk.skip, Blk.tryExcept, snet_time, snet_settimeout, hlate, hto, hs, lenL]
+    generalize hF : (Fr.mk _ _ _ : SFr) = F
+    obtain ⟨O, hO, hpost⟩ := hk F (by subst hF; simp [hs]) (by subst hF; rfl) (by subst hF; rfl) (by subst hF; rfl) (by subst hF; rfl)
+    rw [hO]
+    clear hO hF hk hm
+    obtain ⟨o, F1⟩ := O
+    generalize sendLoop w.script _ 0 w.wire = mr at hpost ⊢
+    obtain ⟨r, m⟩ := mr
+    simp only [SendLoopPost] at hpost
+    obtain ⟨k1, k2, k3⟩ := hpost
+    cases r with
+    | sent n =>
+      obtain ⟨k3, k4, k5, k6⟩ := k3
+      subst k3
+      refine ⟨F1.w, ?_, k2, ?_⟩
+      · simp [finishMethod, Blk.ret, soutcome, k1, k4]
+      · simp [sscriptAfter, k5]
+    | timeout =>
+      obtain ⟨⟨e, k3, ke⟩, k5⟩ := k3
+      subst k3
+      refine ⟨F1.w, ?_, k2, ?_⟩
+      · simp [finishMethod, Blk.raise, soutcome, ke, k1]
+      · simp [sscriptAfter, k5]
+    | none => exact k3.elim
+  | cons a l =>
+    have hm : send data (sst st w) = ((sendLoop w.script (((a :: l) ++ [data]).filter isNonEmpty).flatten 0 w.wire).1,
+      ⟨(sendLoop w.script (((a :: l) ++ [data]).filter isNonEmpty).flatten 0 w.wire).2.sbuf ++ [],
+       (sendLoop w.script (((a :: l) ++ [data]).filter isNonEmpty).flatten 0 w.wire).2.wire,
+       (sendLoop w.script (((a :: l) ++ [data]).filter isNonEmpty).flatten 0 w.wire).2.script⟩) := by
+      simp [send, sst, hs]
+    generalize hbb : (((a :: l) ++ [data]).filter isNonEmpty).flatten = b at hm
+    have hk := hsend b hm
+    rw [hm]
+    have hi : (1 : Int) < (l.length : Int) + 1 + 1 := by omega
+    simp [Blk.seq, Blk.assign, Blk.call, Blk.ite, Blk.skip, Blk.tryExcept, snet_time, snet_settimeout, hlate, hto, hs, lenL, hi,
+      join, truthy_eq_isNonEmpty]
+    generalize hF : (Fr.mk _ _ _ : SFr) = F
+    obtain ⟨O, hO, hpost⟩ := hk F (by subst hF; simp [hs, join, truthy_eq_isNonEmpty, ← hbb]) (by subst hF; rfl) (by subst hF; rfl) (by subst hF; rfl) (by subst hF; rfl)
+    rw [hO]
+    clear hO hF hk hm
+    obtain ⟨o, F1⟩ := O
+    generalize sendLoop w.script _ 0 w.wire = mr at hpost ⊢
+    obtain ⟨r, m⟩ := mr
+    simp only [SendLoopPost] at hpost
+    obtain ⟨k1, k2, k3⟩ := hpost
+    cases r with
+    | sent n =>
+      obtain ⟨k3, k4, k5, k6⟩ := k3
+      subst k3
+      refine ⟨F1.w, ?_, k2, ?_⟩
+      · simp [finishMethod, Blk.ret, soutcome, k1, k4]
+      · simp [sscriptAfter, k5]
+    | timeout =>
+      obtain ⟨⟨e, k3, ke⟩, k5⟩ := k3
+      subst k3
+      refine ⟨F1.w, ?_, k2, ?_⟩
+      · simp [finishMethod, Blk.raise, soutcome, ke, k1]
+      · simp [sscriptAfter, k5]
+    | none => exact k3.elim
+
+
+/-- non-zero `flags`: `ValueError` before `sbuf` is touched (Model3.lean's `sendFlags`) -/
+theorem src_send_flags (J : Int) (lfuel : Nat) (st : BufferedSocket.St Int) (w : SW) (data : Bytes) (flags : Int)
+    (targ : Option (Option Int)) (hfl : flags ≠ 0) :
+    BufferedSocket.send (snet J) lfuel st data flags targ w = (.error .valueError, st, w) := by
+  simp [BufferedSocket.send, runMethod, BufferedSocket.send.body, Blk.seq, Blk.ite, Blk.assign, Blk.raise, finishMethod, hfl]
+
+-- two partial sends: the buffered byte and the new data go out joined, in order
+example : BufferedSocket.send (snet 100) 10 ⟨[], [[1]], 10, some 5, 4⟩ [2, 3] 0 none ⟨[.accept 2, .accept 5], [], false⟩
+    = (.ok 3, ⟨[], [[]], 10, some 5, 4⟩, ⟨[], [1, 2, 3], false⟩) := rfl
+-- the deadline passes after the first partial send: `Timeout`, the unsent byte stays in `sbuf`
+example : BufferedSocket.send (snet 100) 10 ⟨[], [[1]], 10, some 5, 4⟩ [2, 3] 0 none ⟨[.accept 2, .clock, .accept 5], [], false⟩
+    = (.error .timeout, ⟨[], [[3]], 10, some 5, 4⟩, ⟨[.clock, .accept 5], [1, 2], true⟩) := rfl
+example : ∃ w', BufferedSocket.send (snet 100) 10 ⟨[], [[1]], 10, some 5, 4⟩ [2, 3] 0 none ⟨[.accept 2, .clock, .accept 5], [], false⟩
+      = (.error .timeout, ⟨[], [[3]], 10, some 5, 4⟩, w') ∧ w'.wire = [1, 2] ∧ ssettle w' = [.accept 5] := by
+  have h := src_send_eq_model 100 5 (by decide) (by decide) ⟨[], [[1]], 10, some 5, 4⟩ ⟨[.accept 2, .clock, .accept 5], [], false⟩
+    [2, 3] none 10 rfl rfl (by decide)
+  obtain ⟨w', h1, h2, h3⟩ := h
+  exact ⟨w', h1, h2, h3⟩
+
+/-! ### `sendall`, `flush` -/
+
+/-- `sendall` is `send`, on every network -/
+theorem src_sendall_eq_send {W : Type} (net : Net W Int) (lfuel : Nat) (st : BufferedSocket.St Int) (w : W) (data : Bytes)
+    (flags : Int) (targ : Option (Option Int)) :
+    BufferedSocket.sendall net lfuel st data flags targ w = BufferedSocket.send net lfuel st data flags targ w := by
+  unfold BufferedSocket.sendall runMethod BufferedSocket.sendall.body
+  simp only [Blk.seq, Blk.callm, Blk.ret]
+  rcases hr : BufferedSocket.send net lfuel st data flags targ w with ⟨r, st1, w1⟩
+  cases r <;> simp [finishMethod]
+
+/-- `sendall(data, 0, timeout)` = the model's `send` (the model has one operation for both) -/
+theorem src_sendall_eq_model (J t : Int) (ht0 : 0 < t) (htJ : t ≤ J) (st : BufferedSocket.St Int) (w : SW) (data : Bytes)
+    (targ : Option (Option Int)) (lfuel : Nat) (hlate : w.late = false) (hto : orDefault targ st.timeout = some t)
+    (hf : w.script.length + 2 ≤ lfuel) :
+    ∃ w', BufferedSocket.sendall (snet J) lfuel st data 0 targ w
+        = (soutcome (send data (sst st w)).1, { st with sbuf := (send data (sst st w)).2.sbuf }, w') ∧
+      w'.wire = (send data (sst st w)).2.wire ∧
+      sscriptAfter (send data (sst st w)).1 w' = (send data (sst st w)).2.script := by
+  rw [src_sendall_eq_send]
+  exact src_send_eq_model J t ht0 htJ st w data targ lfuel hlate hto hf
+
+example : BufferedSocket.sendall (snet 100) 10 ⟨[], [[1]], 10, some 5, 4⟩ [2, 3] 0 none ⟨[.accept 2, .timeout], [], false⟩
+    = (.error .timeout, ⟨[], [[3]], 10, some 5, 4⟩, ⟨[], [1, 2], false⟩) := rfl
+
+/-- what the caller of `flush` / `buffer` sees: `None`, or `Timeout` -/
+def soutcomeU : SRes → Except Exc Unit
+  | .timeout => .error .timeout
+  | _ => .ok ()
+
+/-- `flush()` = the model's `flush`: `send(b'')` with the object's timeout, the byte count dropped -/
+theorem src_flush_eq_model (J t : Int) (ht0 : 0 < t) (htJ : t ≤ J) (st : BufferedSocket.St Int) (w : SW)
+    (lfuel : Nat) (hlate : w.late = false) (hto : st.timeout = some t) (hf : w.script.length + 2 ≤ lfuel) :
+    ∃ w', BufferedSocket.flush (snet J) lfuel st w
+        = (soutcomeU (flush (sst st w)).1, { st with sbuf := (flush (sst st w)).2.sbuf }, w') ∧
+      w'.wire = (flush (sst st w)).2.wire ∧
+      sscriptAfter (flush (sst st w)).1 w' = (flush (sst st w)).2.script := by
+  obtain ⟨w', h1, h2, h3⟩ := src_send_eq_model J t ht0 htJ st w [] none lfuel hlate (by simpa [orDefault] using hto) hf
+  refine ⟨w', ?_, ?_, ?_⟩
+  · unfold BufferedSocket.flush runMethod BufferedSocket.flush.body
+    simp only [Blk.seq, Blk.callm, h1, flush]
+    cases hm : (send [] (sst st w)).1 <;> rcases hp : send [] (sst st w) with ⟨r, m⟩ <;> rw [hp] at hm <;> simp at hm <;>
+      subst hm <;> simp [soutcome, soutcomeU, finishMethod, Blk.ret]
+  · unfold flush
+    rcases hp : send [] (sst st w) with ⟨r, m⟩
+    rw [hp] at h2
+    cases r <;> simpa using h2
+  · unfold flush
+    rcases hp : send [] (sst st w) with ⟨r, m⟩
+    rw [hp] at h3
+    cases r <;> simpa [sscriptAfter] using h3
+
+example : BufferedSocket.flush (snet 100) 10 ⟨[], [[1], [], [2, 3]], 10, some 5, 4⟩ ⟨[.accept 1], [9], false⟩
+    = (.ok (), ⟨[], [[]], 10, some 5, 4⟩, ⟨[], [9, 1, 2, 3], false⟩) := rfl
+
 end C12
